@@ -8,6 +8,7 @@ import AdeuModel.Model.Mapper
 import AdeuModel.Model.Engine
 import AdeuModel.Model.Markup
 import AdeuModel.Model.Tools
+import AdeuModel.Model.Package
 /-
 Line protocol driver: one JSON object per input line, one JSON result per output line.
 Imports model files only (never Lemmas/Props), so it can be compiled to a native executable.
@@ -303,6 +304,23 @@ def handleTool (j : Json) : Except String Json := do
   pure <| Json.mkObj [("outcome", toJson (match oc with | .ok => "ok" | .error => "error")),
     ("changed", toJson changed), ("out", toJson (Tools.outPath r)), ("exit", toJson (Tools.exitCode r fs0))]
 
+/-! ### package level save (C11) -/
+def parsePart (j : Json) : Except String Pkg.Part := do
+  pure { name := ← j.getObjValAs? String "name", ctype := ← j.getObjValAs? String "ct", content := ← j.getObjValAs? String "hash" }
+def parseRel (j : Json) : Except String Pkg.Rel := do
+  pure { id := ← j.getObjValAs? String "id", type := ← j.getObjValAs? String "type", target := ← j.getObjValAs? String "target",
+         mode := ← j.getObjValAs? String "mode" }
+def handlePkgSave (j : Json) : Except String Json := do
+  let parts ← (← j.getObjValAs? (Array Json) "parts").toList.mapM parsePart
+  let rels ← (← j.getObjValAs? (Array Json) "rels").toList.mapM parseRel
+  let stories ← (← j.getObjValAs? (Array Json) "stories").toList.mapM parsePart
+  let comments ← (← j.getObjValAs? (Array Json) "comments").toList.mapM parsePart
+  let newRels ← (← j.getObjValAs? (Array Json) "new_rels").toList.mapM parseRel
+  let out := Pkg.save { parts := parts, docRels := rels } stories comments newRels
+  pure <| Json.mkObj [
+    ("parts", Json.arr (out.parts.map fun p => Json.mkObj [("name", toJson p.name), ("ct", toJson p.ctype), ("hash", toJson p.content)]).toArray),
+    ("rels", Json.arr (out.docRels.map fun r => Json.mkObj [("id", toJson r.id), ("type", toJson r.type), ("target", toJson r.target), ("mode", toJson r.mode)]).toArray)]
+
 def handle (j : Json) : Except String Json := do
   let op ← j.getObjValAs? String "op"
   match op with
@@ -319,6 +337,7 @@ def handle (j : Json) : Except String Json := do
   | "diff_apply" => handleDiffApply j
   | "preview" => handlePreview j
   | "tool" => handleTool j
+  | "pkgsave" => handlePkgSave j
   | _ => throw s!"bad-op {op}"
 
 partial def loop (h : IO.FS.Stream) (out : IO.FS.Stream) : IO Unit := do
